@@ -109,6 +109,10 @@ def evaluate(case):
             res.fail(f"mellin.Path/r/{sig}", f"{where0} logx={lx}: r={r}")
             continue
         contour = M.Contour(r, o, CUT)
+        # the accuracy demanded of the literal statement is the one of the contour of the pinned implementation
+        # (r = 0.4*16/(0.1 - ln x), o = 1 singlet / 0 non-singlet), typed here and NOT read from eko: a path that is
+        # still a valid contour but converges worse along the solver's cut fails the literal oracle
+        contour_ref = M.Contour(0.4 * 16.0 / (0.1 - lx), 1.0 if cname == "singlet" else 0.0, CUT)
         for j, bf in enumerate(dn):
             if kind == "node" and idx == n - 1 and j == n - 1:
                 continue  # skipped by Operator.run_op_integration
@@ -133,6 +137,7 @@ def evaluate(case):
             pieces = [(float(a[0]), float(a[1]), [float(c) for c in a[2:]]) for a in dx[j].areas_representation]
             tr = contour.truncated(lx, pieces)
             rem = contour.remainder(lx, pieces)
+            rem_ref = contour_ref.remainder(lx, pieces)
             pv = M.piece_value(lx, pieces)
             sc = abs(tr + rem - pv)
             info["max_reference_selfcheck"] = max(info["max_reference_selfcheck"], sc)
@@ -158,11 +163,11 @@ def evaluate(case):
             if want != 0.0 or val != 0.0:
                 nonzero += 1
             ldev = abs(val - want)
-            if ldev > abs(rem) + TOL:
+            if ldev > abs(rem_ref) + TOL:
                 if sharp_ok:  # otherwise a consequence of the failure already reported
                     res.fail(
                         f"inversion/vs-x-space/{sig}",
-                        f"{where}: inversion = {val!r}, x-space basis = {want!r}; the contour cut explains only {abs(rem):.3e} (+ tol {TOL})",
+                        f"{where}: inversion = {val!r}, x-space basis = {want!r}; the contour cut of the reference path explains only {abs(rem_ref):.3e} (+ tol {TOL}; actual path: {abs(rem):.3e})",
                     )
             else:
                 key = "max_literal_dev_node" if kind == "node" else "max_literal_dev_interior"
